@@ -34,7 +34,7 @@ ASSUMPTIONS = [
     "Bit-exact comparison (NaN == NaN, -0.0 == 0.0); WeightedTensor values are compared where the weight is non-zero, weights exactly.",
     "The twin state is built by the harness with torch.where(accepted, proposed, previous) on the proposed variable only.",
 ]
-REQUIRED_CLASSES = {"ind:mixed-mask": 100, "ind:overflow": 40, "pop:rejected": 80, "step:individual": 40, "step:population": 40, "nontrivial": 150}
+REQUIRED_CLASSES = {"ind:mixed-mask": 100, "ind:overflow": 40, "pop:rejected": 80, "step:individual": 40, "step:population": 40, "toy-weighted": 300, "nontrivial": 150}
 
 OVERFLOW_SCALE = {"xi": 100.0, "tau": 2.5e5}
 
@@ -526,7 +526,72 @@ def step_case(draw, kinds):
     return c
 
 
-BODIES = {"ind-proposal": (ind_case, body_ind), "pop-proposal": (pop_case, body_pop), "sampler-step": (step_case, body_step)}
+# ------------------------------------------------------------------------------------------------
+# toy-weighted: block proposals (indexed put) on a WeightedTensor-valued variable of a small custom graph
+# ------------------------------------------------------------------------------------------------
+def body_toy(col: Collector, case):
+    import torch
+
+    from leaspy.utils.weighted_tensor import WeightedTensor
+    from leaspy.variables.dag import VariablesDAG
+    from leaspy.variables.specs import DataVariable, LinkedVariable
+    from leaspy.variables.state import State, StateForkType
+
+    n = case["n"]
+    specs = {"x": DataVariable(), "p": DataVariable(),
+             "d1": LinkedVariable(eval("lambda *, x, p: x * p")), "d2": LinkedVariable(eval("lambda *, d1: d1.sum(dim=0)")),
+             "d3": LinkedVariable(eval("lambda *, x: x * x"))}
+    dag = VariablesDAG.from_dict(specs)
+    s = State(dag, auto_fork_type=StateForkType.REF if case["fork"] == "ref" else StateForkType.COPY)
+    w = torch.tensor([[(i + j) % 3 != 0 for j in range(2)] for i in range(n)])
+    x0 = gen.tensor_from(case["x"], (n, 2))
+    with s.auto_fork(None):
+        s["x"] = WeightedTensor(x0.clone(), w) if case["weighted"] else x0.clone()
+        s["p"] = torch.tensor(float(case["p"]))
+    for nm in case["pre"]:
+        s[nm]
+    S0 = {k: fast_copy(v) for k, v in s._values.items()}
+    classes = ["toy-weighted" if case["weighted"] else "toy-plain", "toy:" + case["fork"]]
+    try:
+        rows = sorted({r % n for r in case["rows"]})
+        delta = gen.tensor_from(case["delta"], (len(rows), 2))
+        s.put("x", delta, indices=(rows,), accumulate=case["acc"])
+        for nm in case["mid"]:
+            s[nm]
+        if case["reject"]:
+            s.revert()
+            for k, v0 in S0.items():
+                if not same(s._values[k], v0):
+                    raise Fail("toy:full-revert-did-not-restore", f"{k} = {brief(s._values[k])}", brief(v0))
+        for nm in ("d1", "d2", "d3"):
+            exp = scratch_eval(dag, s._values, nm)
+            if not same(s[nm], exp):
+                raise Fail("toy:later-read-differs-from-definition", f"{nm} = {brief(s[nm])}", brief(exp))
+    except Fail as f:
+        col.fail("toy-weighted", f.bucket, case, observed=f.observed, expected=f.expected)
+        col.case(classes=classes)
+        return
+    except (RuntimeError, ValueError, TypeError, IndexError, AssertionError) as e:
+        col.fail("toy-weighted", "unexpected-exception:" + exc_bucket(e), case, observed=repr(e), expected="operations succeed")
+        col.case(classes=classes)
+        return
+    nt = case["reject"] and bool(case["mid"])
+    col.case(classes=classes + (["nontrivial"] if nt else []), nontrivial=jhash(case) if nt else None,
+             sample=dict(sub_check="toy-weighted", **{k: case[k] for k in ("weighted", "fork", "rows", "acc", "reject", "mid")}))
+
+
+@st.composite
+def toy_case(draw, kinds=None):
+    names = ["d1", "d2", "d3"]
+    return dict(n=draw(st.sampled_from([3, 4, 6])), weighted=draw(st.sampled_from([True, True, False])), fork=draw(st.sampled_from(["ref", "copy"])),
+                x=draw(st.lists(gen.f32(-3, 3), min_size=1, max_size=6)), p=draw(gen.f32(-2, 2)),
+                pre=draw(st.lists(st.sampled_from(names), max_size=3)), mid=draw(st.lists(st.sampled_from(names), max_size=3)),
+                rows=draw(st.lists(st.integers(0, 11), min_size=1, max_size=3)), delta=draw(st.lists(gen.f32(-2, 2), min_size=1, max_size=4)),
+                acc=draw(st.booleans()), reject=draw(st.sampled_from([True, True, False])))
+
+
+BODIES = {"ind-proposal": (ind_case, body_ind), "pop-proposal": (pop_case, body_pop), "sampler-step": (step_case, body_step),
+          "toy-weighted": (toy_case, body_toy)}
 
 
 def shard_run(sub: str, kinds, seed: int, n_examples: int, shard: int = 0):
@@ -547,6 +612,7 @@ def shards(tier: str, seed: int):
             specs.append((MOD, "shard_run", dict(sub=sub, kinds=ks, seed=seed, n_examples=n, shard=k)))
             k += 1
     specs.append((MOD, "shard_run", dict(sub="ind-proposal", kinds=("logistic", "linear"), seed=seed, n_examples=n, shard=k)))
+    specs.append((MOD, "shard_run", dict(sub="toy-weighted", kinds=("toy",), seed=seed, n_examples=6 * n, shard=k + 1)))
     return specs
 
 
